@@ -21,9 +21,9 @@ from .. import spaces as SP
 GARBAGE = ('nan', 'huge', 'stale', 'inf', 'denormal', 'zero')
 
 TIERS = {
-    'C03': {'quick': {'runs': 12000, 'budget_s': 80, 'chunk': 60},
+    'C03': {'quick': {'runs': 48000, 'budget_s': 100, 'chunk': 100},
             'thorough': {'runs': 600000, 'budget_s': 1800, 'chunk': 300}},
-    'C10': {'quick': {'runs': 12000, 'budget_s': 80, 'chunk': 60},
+    'C10': {'quick': {'runs': 48000, 'budget_s': 100, 'chunk': 100},
             'thorough': {'runs': 600000, 'budget_s': 1800, 'chunk': 300}},
 }
 
